@@ -107,10 +107,20 @@ def gen_cfg(r, tier, idx):
                 nkeys=nkeys, nops=nops, raising=raising, keyerr=keyerr,
                 pre_mem=r.choice([0, 0, 0, 2, maxsize + 2]),
                 pre_arch=r.choice([0, 0, 3, maxsize + 3]),
-                malformed=malformed, clone=False)
+                malformed=malformed, clone=False,
+                # the archive is attached only after decoration (f.archive(obj)), as test_cache_info does
+                late_attach=(backend in ('plain', 'null') and (blk // 5) % 2 == 0),
+                longargs=(backend in ('dir', 'bare_dir', 'file') and keymap == 'string' and (blk // 5) % 2 == 1))
 
 
 def gen_ops(r, cfg):
+    ops = _gen_ops(r, cfg)
+    if cfg.get('late_attach'):
+        ops.insert(min(len(ops), r.randrange(0, 4)), ['setarch', 'dict', []])
+    return ops
+
+
+def _gen_ops(r, cfg):
     ops = []
     nk = cfg['nkeys']
     hot = r.random() < 0.3          # hit-dominated histories
@@ -161,6 +171,7 @@ def fun(x):
     """the memoized function of every trace: module level, so that dill pickles it by reference and
     a restored copy of the decorated function shares the evaluation log"""
     xx = x[0] if isinstance(x, list) else x
+    if isinstance(xx, str): xx = int(xx[-2:])          # long-argument stratum: the argument number is in the last two characters
     _CUR['log'].append(xx)
     if xx in _CUR['keyerr']: raise KeyError(xx)
     if xx in _CUR['raising']: raise Boom(xx)
@@ -208,7 +219,7 @@ class Runner:
 
     # -- observation helpers
     def keyof(self, x):
-        return self.f.key(x)
+        return self.f.key(self.A(x))
 
     def pairs(self, d):
         items = list(d.items()) if not hasattr(d, '__asdict__') else list(d.__asdict__().items())
@@ -243,6 +254,11 @@ class Runner:
         return dict(suite='wrapper', op='cfg', algo=c['algo'], safe=c['safe'], maxsize=c['maxsize'],
                     purge=(True if c['algo'] == 'no' else (False if c['algo'] == 'inf' else c['purge'])),
                     bare=self.bare, mem=self.init_mem, arch=self.init_arch)
+
+    def A(self, x):
+        """the argument passed for argument number x; the long-argument stratum uses long strings with a long common prefix
+        (the string key "('LL..07',)" is 244 characters: still a legal file name)"""
+        return 'L' * 236 + '%02d' % x if self.cfg.get('longargs') else x
 
     def keyin(self, args):
         try:
@@ -330,6 +346,7 @@ class Runner:
         if kind in ('call', 'callbad'):
             x = op[1]
             args = ([x],) if kind == 'callbad' else (x,)
+            if kind == 'call': args = (self.A(x),)
             key, rawk = self.keyin(args)
             chosen = []
             orig = random.choice
@@ -351,15 +368,15 @@ class Runner:
         if kind == 'clone':
             return None, self.clone(), None
         if kind == 'lookup':
-            key, rawk = self.keyin((op[1],))
+            key, rawk = self.keyin((self.A(op[1]),))
             n0 = len(self.log)
-            try: out = {'ret': self.V(f.lookup(op[1]))}
+            try: out = {'ret': self.V(f.lookup(self.A(op[1])))}
             except Exception as e: out = {'exc': exc_name(e)}
             out['evals'] = len(self.log) - n0
             return dict(op='lookup', key=key), out, None
         if kind == 'key':
             n0 = len(self.log)
-            k1 = f.key(op[1]); k2 = f.key(op[1])
+            k1 = f.key(self.A(op[1])); k2 = f.key(self.A(op[1]))
             return None, {'keyeq': k1 == k2 and type(k1) is type(k2), 'evals': len(self.log) - n0}, None
         if kind == 'clear':
             f.clear(op[1]); return dict(op='clear', keep=op[1]), 'unit', None
